@@ -116,6 +116,28 @@ pub const WRAPS: [Wrap; 10] = [
     Wrap::Closure,
 ];
 
+/// the syntactic class of an EFFECT-FREE hole (a hole whose plan entry is `Eff::None`) and of the
+/// operands of a `FailDiv` hole: what a pass may classify as "plain / pure / trivial" and then treat
+/// the NEIGHBOURING operand (or the whole call-free expression) differently — skip naming it, keep a
+/// strict Go operator, hoist it, drop it.  The value of the hole is the same under every shape.
+#[derive(Clone, Copy, PartialEq, Debug)]
+pub enum Pure {
+    /// a literal (the historical `Eff::None` filling)
+    Lit,
+    /// a `let`-bound variable declared at the start of the function
+    Var,
+    /// an operator tree over variables and literals: `(z + 3)`, `(z == 0)`, `(big > z)`, `("s" + "")`
+    OpTree,
+    /// a field of a struct variable: `pw3.v`
+    Field,
+    /// a unary operator on a variable: `(-pn3)` / `(!pn3)`
+    Unary,
+    /// a projection of a tuple variable: `pt3.0`
+    Proj,
+}
+
+pub const PURES: [Pure; 5] = [Pure::Var, Pure::OpTree, Pure::Field, Pure::Unary, Pure::Proj];
+
 #[derive(Clone, Debug, PartialEq)]
 enum Ev {
     Print(String),
@@ -148,6 +170,12 @@ pub struct G<'a> {
     pub wrap: Wrap,
     /// how many holes were wrapped
     pub wrapped: usize,
+    /// syntactic class of the effect-free holes (and of the operands of a `FailDiv` hole)
+    pub pure: Pure,
+    /// declarations of the variables the effect-free holes read (spliced at the start of the function)
+    pub pre: String,
+    /// how many holes were filled with an effect-free expression that is not a literal
+    pub pure_placed: usize,
 }
 
 fn dflt(t: Ty) -> &'static str {
@@ -202,6 +230,72 @@ impl<'a> G<'a> {
             forms_used: vec![],
             wrap: Wrap::None,
             wrapped: 0,
+            pure: Pure::Lit,
+            pre: String::new(),
+            pure_placed: 0,
+        }
+    }
+
+    /// an effect-free expression of value `v` in the syntactic class `self.pure`
+    fn pure_text(&mut self, t: Ty, v: &V, i: usize) -> String {
+        let s = sfx(t);
+        let vt = lit(v);
+        // classes that do not exist for a type fall back to a variable
+        let shape = match (self.pure, t) {
+            (Pure::Lit, _) => Pure::Lit,
+            (Pure::OpTree | Pure::Field | Pure::Proj, Ty::U) => Pure::Var,
+            (Pure::Unary, Ty::S | Ty::U) => Pure::Var,
+            (p, _) => p,
+        };
+        if shape != Pure::Lit {
+            self.pure_placed += 1;
+        }
+        match shape {
+            Pure::Lit => vt,
+            Pure::Var => {
+                write!(self.pre, "let pv{} = {}; ", i, vt).unwrap();
+                format!("pv{}", i)
+            }
+            Pure::OpTree => match (t, v) {
+                (Ty::I, _) => format!("(z + {})", vt),
+                (Ty::B, V::B(true)) => (if i % 2 == 0 { "(z == 0)" } else { "(big > z)" }).to_string(),
+                (Ty::B, _) => (if i % 2 == 0 { "(z != 0)" } else { "(big < z)" }).to_string(),
+                _ => format!("({} + \"\")", vt),
+            },
+            Pure::Field => {
+                write!(self.pre, "let pw{} = W{} {{ v: {} }}; ", i, s, vt).unwrap();
+                format!("pw{}.v", i)
+            }
+            Pure::Unary => {
+                let neg = match v {
+                    V::I(x) => lit(&V::I(x.wrapping_neg())),
+                    V::B(b) => lit(&V::B(!*b)),
+                    _ => unreachable!(),
+                };
+                write!(self.pre, "let pn{} = {}; ", i, neg).unwrap();
+                if t == Ty::I { format!("(-pn{})", i) } else { format!("(!pn{})", i) }
+            }
+            Pure::Proj => {
+                write!(self.pre, "let pt{} = ({}, 0); ", i, vt).unwrap();
+                format!("pt{}.0", i)
+            }
+        }
+    }
+
+    /// the zero divisor of a `FailDiv` hole, in the syntactic class `self.pure`
+    fn zero_text(&mut self, i: usize) -> String {
+        match self.pure {
+            Pure::Lit | Pure::Var => "z".to_string(),
+            Pure::OpTree => "(big - 7)".to_string(),
+            Pure::Field => {
+                write!(self.pre, "let pzw{} = Wi {{ v: z }}; ", i).unwrap();
+                format!("pzw{}.v", i)
+            }
+            Pure::Unary => "(-z)".to_string(),
+            Pure::Proj => {
+                write!(self.pre, "let pzt{} = (z, 1); ", i).unwrap();
+                format!("pzt{}.0", i)
+            }
         }
     }
     fn fresh(&mut self, p: &str) -> String {
@@ -298,12 +392,16 @@ impl<'a> G<'a> {
         };
         let eff = *self.plan.get(i).unwrap_or(&self.base);
         let path = format!("{}{}{}", self.pos_stack.join("/"), if self.pos_stack.is_empty() { "" } else { "/" }, pos);
-        self.positions.push(format!("{}@{:?}:{:?}", path, w, eff));
+        if self.pure != Pure::Lit && matches!(eff, Eff::None | Eff::FailDiv) && w == Wrap::None {
+            self.positions.push(format!("{}@Pure{:?}:{:?}", path, self.pure, eff));
+        } else {
+            self.positions.push(format!("{}@{:?}:{:?}", path, w, eff));
+        }
         let l = format!("h{}", i);
         let vt = lit(&v);
         let s = sfx(t);
         let txt = match eff {
-            Eff::None => vt,
+            Eff::None => self.pure_text(t, &v, i),
             Eff::Print => {
                 self.ev(Ev::Print(l.clone()));
                 format!("p_{}(\"{}\", {})", s, l, vt)
@@ -319,11 +417,23 @@ impl<'a> G<'a> {
             }
             Eff::FailDiv => {
                 self.ev(Ev::Fail("integer divide by zero"));
-                match t {
-                    Ty::I => format!("({} / z)", vt),
-                    Ty::B => "((7 / z) == 1)".to_string(),
-                    Ty::S => "int32_to_string(7 / z)".to_string(),
-                    Ty::U => "u_of(7 / z)".to_string(),
+                if self.pure != Pure::Lit {
+                    // dividend and divisor in the syntactic class of the case
+                    let zt = self.zero_text(i);
+                    let num = if t == Ty::I { self.pure_text(Ty::I, &v, i) } else { self.pure_text(Ty::I, &V::I(7), i) };
+                    match t {
+                        Ty::I => format!("({} / {})", num, zt),
+                        Ty::B => format!("(({} / {}) == 1)", num, zt),
+                        Ty::S => format!("int32_to_string({} / {})", num, zt),
+                        Ty::U => format!("u_of({} / {})", num, zt),
+                    }
+                } else {
+                    match t {
+                        Ty::I => format!("({} / z)", vt),
+                        Ty::B => "((7 / z) == 1)".to_string(),
+                        Ty::S => "int32_to_string(7 / z)".to_string(),
+                        Ty::U => "u_of(7 / z)".to_string(),
+                    }
                 }
             }
             Eff::FailIdx => {
@@ -1173,6 +1283,7 @@ pub struct Case {
     pub forms: Vec<&'static str>,
     pub holes: usize,
     pub wrapped: usize,
+    pub pure_placed: usize,
 }
 
 /// placement of the root form in the function
@@ -1184,8 +1295,14 @@ pub enum Place {
 }
 
 pub fn gen_case(rng: &mut Rng, f: usize, depth: usize, plan: Vec<Eff>, base: Eff, place: Place, wrap: Wrap) -> Case {
+    gen_case_pure(rng, f, depth, plan, base, place, wrap, Pure::Lit)
+}
+
+#[allow(clippy::too_many_arguments)]
+pub fn gen_case_pure(rng: &mut Rng, f: usize, depth: usize, plan: Vec<Eff>, base: Eff, place: Place, wrap: Wrap, pure: Pure) -> Case {
     let mut g = G::new(rng, plan, base);
     g.wrap = wrap;
+    g.pure = pure;
     let (e, v) = g.form(f, depth);
     let t = form_ty(f);
     let show = |x: &str| match t {
@@ -1212,9 +1329,10 @@ pub fn gen_case(rng: &mut Rng, f: usize, depth: usize, plan: Vec<Eff>, base: Eff
         "let ai = [1, 2]; let ab = [true, false]; let asr = [\"p\", \"q\"]; "
     };
     let mut src = String::from(PRELUDE);
-    if wrap != Wrap::None {
+    if wrap != Wrap::None || pure == Pure::Field {
         src.push_str(PRELUDE_WRAP);
     }
+    let decls = format!("{}{}", decls, g.pre);
     let tail_ref = "string_println(\"ref:\" + int32_to_string(ref_get(r)))";
     match place {
         Place::LetThenShow => {
@@ -1255,7 +1373,7 @@ pub fn gen_case(rng: &mut Rng, f: usize, depth: usize, plan: Vec<Eff>, base: Eff
         }
         expect[s] = (out, status);
     }
-    Case { src, expect, positions: g.positions.clone(), forms: g.forms_used.clone(), holes: g.next, wrapped: g.wrapped }
+    Case { src, expect, positions: g.positions.clone(), forms: g.forms_used.clone(), holes: g.next, wrapped: g.wrapped, pure_placed: g.pure_placed }
 }
 
 fn eff_tag(e: Eff) -> &'static str {
@@ -1485,6 +1603,70 @@ pub fn main(args: &util::Args) {
                 }
             }
         }
+    }
+    // ---- (3c) effect-free neighbours: ONE hole carries the effect (a print, a Ref update, a failing
+    // operation), every other hole is an effect-free expression of one syntactic class (variable,
+    // operator tree over variables — the guard idiom `d != 0 && n / d > k` —, field of a struct
+    // variable, unary on a variable, tuple projection); with `FailDiv` the whole expression is
+    // call-free.  What a "this operand / this expression is plain, no branch / temporary / statement
+    // needed" shortcut in any pass decides on, wherever it looks (the operand itself or its sibling).
+    for f in 0..N_FORMS {
+        let is_op = logical.contains(&f) || other_bin.contains(&f);
+        let reps = if thorough { if f >= 44 { 3 } else { 1 } } else { 1 };
+        for rep in 0..reps {
+            let stream = 0x6000_0000u64 + (f * 1000 + rep) as u64;
+            let holes = {
+                let mut r = Rng::new(args.seed).fork(stream);
+                gen_case(&mut r, f, 0, vec![], Eff::None, Place::LetThenShow, Wrap::None).holes
+            };
+            let mut vi = 0usize;
+            for h in 0..holes {
+                for (pi, pure) in PURES.iter().enumerate() {
+                    // quick: every class for the operator forms, one rotating class per hole elsewhere
+                    if !thorough && !is_op && pi != (f + h + rep) % PURES.len() {
+                        continue;
+                    }
+                    let kinds: &[Eff] = if thorough {
+                        &[Eff::Print, Eff::PrintBlock, Eff::RefUpd, Eff::FailDiv, Eff::FailIdx, Eff::FailCall]
+                    } else if logical.contains(&f) {
+                        &[Eff::Print, Eff::RefUpd, Eff::FailDiv]
+                    } else {
+                        &[Eff::Print, Eff::FailDiv]
+                    };
+                    for e in kinds {
+                        let mut plan = vec![Eff::None; holes];
+                        plan[h] = *e;
+                        let mut r = Rng::new(args.seed).fork(stream);
+                        let place = places[(vi + rep + f) % 3];
+                        vi += 1;
+                        let case = gen_case_pure(&mut r, f, 0, plan, Eff::None, place, Wrap::None, *pure);
+                        if case.pure_placed == 0 {
+                            continue; // no other hole: nothing the classes could change
+                        }
+                        let id = format!("pure:{}:{}:{:?}:{}:{}@{}:{:?}", args.seed, form_name(f), pure, rep, eff_tag(*e), h, place);
+                        emit(&id, &case, &dir, &mut out, &mut stats);
+                    }
+                }
+            }
+        }
+    }
+    // nested compositions in which every hole is, at random, effectful or effect-free of one class
+    let n_mix = if thorough { 1500 } else { 120 };
+    for i in 0..n_mix {
+        let mut r = Rng::new(args.seed).fork(0x5000_0000 + i as u64);
+        let f = r.below(N_FORMS);
+        let depth = 1 + r.below(2);
+        let base = [Eff::Print, Eff::RefUpd, Eff::PrintBlock][r.below(3)];
+        let mut plan: Vec<Eff> = (0..16).map(|_| if r.chance(1, 2) { Eff::None } else { base }).collect();
+        if r.chance(1, 2) {
+            let h = r.below(6);
+            plan[h] = [Eff::FailDiv, Eff::FailDiv, Eff::FailIdx, Eff::FailCall][r.below(4)];
+        }
+        let place = places[r.below(3)];
+        let pure = PURES[r.below(PURES.len())];
+        let case = gen_case_pure(&mut r, f, depth, plan, base, place, Wrap::None, pure);
+        let id = format!("mix:{}:{}:{}:d{}:{:?}:{:?}", args.seed, i, form_name(f), depth, place, pure);
+        emit(&id, &case, &dir, &mut out, &mut stats);
     }
     // nested forms: random composition, random effect plan
     let n_nested = if thorough { 4000 } else { 400 };
